@@ -398,7 +398,10 @@ class UpdateCommand(BaseUpdateMixin, GematoCommand):
                     logging.error('Incremental specified but no '
                                   'timestamp in Manifest')
                     return 1
-                update_kwargs['last_mtime'] = last_ts.ts.timestamp()
+                # TIMESTAMP is in UTC, do not let it be taken for local time
+                update_kwargs['last_mtime'] = (
+                    last_ts.ts.replace(tzinfo=datetime.timezone.utc)
+                    .timestamp())
 
             logging.info(f'Updating Manifests in {p}...')
 
